@@ -864,7 +864,10 @@ fn parse_json_filter(input: &[u8], output: &mut [u8]) -> Result<(usize, usize), 
             if peek(input, inpos)? == b']' {
                 break;
             }
-            read_id(input, &mut inpos, &mut output[end..])?;
+            let outbuf = output
+                .get_mut(end..)
+                .ok_or_else(|| -> Error { InnerError::BufferTooSmall(end + ID_SIZE).into() })?;
+            read_id(input, &mut inpos, outbuf)?;
             num_ids += 1;
             end += ID_SIZE;
         }
@@ -882,7 +885,10 @@ fn parse_json_filter(input: &[u8], output: &mut [u8]) -> Result<(usize, usize), 
             if peek(input, inpos)? == b']' {
                 break;
             }
-            read_pubkey(input, &mut inpos, &mut output[end..])?;
+            let outbuf = output
+                .get_mut(end..)
+                .ok_or_else(|| -> Error { InnerError::BufferTooSmall(end + PUBKEY_SIZE).into() })?;
+            read_pubkey(input, &mut inpos, outbuf)?;
             num_authors += 1;
             end += PUBKEY_SIZE;
         }
@@ -947,8 +953,8 @@ fn parse_json_filter(input: &[u8], output: &mut [u8]) -> Result<(usize, usize), 
             let countindex = end;
             end += 2;
             put(output, end, 1_u16.to_ne_bytes().as_slice())?;
-            if output.len() < end + 2 {
-                return Err(InnerError::BufferTooSmall(end + 2).into());
+            if output.len() < end + 3 {
+                return Err(InnerError::BufferTooSmall(end + 3).into());
             }
             output[end + 2] = letter;
 
@@ -969,7 +975,10 @@ fn parse_json_filter(input: &[u8], output: &mut [u8]) -> Result<(usize, usize), 
                 }
                 verify_char(input, b'"', &mut inpos)?;
                 // copy  data
-                let (inlen, outlen) = json_unescape(&input[inpos..], &mut output[end + 2..])?;
+                let outbuf = output
+                    .get_mut(end + 2..)
+                    .ok_or_else(|| -> Error { InnerError::BufferTooSmall(end + 2).into() })?;
+                let (inlen, outlen) = json_unescape(&input[inpos..], outbuf)?;
                 // write len
                 put(output, end, (outlen as u16).to_ne_bytes().as_slice())?;
                 end += 2 + outlen;
